@@ -80,7 +80,7 @@ def run_episode(tracer, d, cfg, policy, max_steps=400, env_hook=None, seed=None)
 
 
 def run_batch(seed, n, profiles=("mixed",), ps=(0.1, 0.5, 0.9, 1.0), tracer=None, custom_buffers_p=0.0,
-              trunc_p=0.3, env_hook=None, max_steps=400, gen_kw=None):
+              trunc_p=0.3, env_hook=None, max_steps=400, gen_kw=None, phased_p=0.0, early_p=0.6):
     rng = random.Random(seed)
     tracer = tracer or trace.Tracer()
     tracer.want_pre = True
@@ -92,7 +92,7 @@ def run_batch(seed, n, profiles=("mixed",), ps=(0.1, 0.5, 0.9, 1.0), tracer=None
         if custom_buffers_p and "logistics" in d["instance_config"] and rng.random() < custom_buffers_p:
             gen.gen_custom_buffers(rng, d, feats["nj"])
             feats["custom_buffers"] = True
-        early = rng.random() < 0.6
+        early = rng.random() < early_p
         cfgkw = {"early": early}
         if rng.random() < trunc_p:
             cfgkw.update(joker=rng.randint(0, 3), trunc_active=True)
@@ -105,7 +105,8 @@ def run_batch(seed, n, profiles=("mixed",), ps=(0.1, 0.5, 0.9, 1.0), tracer=None
         ep = Episode(k, d, feats, cfgkw, None)
         ep.first = len(tracer.records)
         try:
-            env, end, actions, et = run_episode(tracer, d, cfg, gen.Policy(rng, p), max_steps=max_steps,
+            pol = gen.PhasedPolicy(rng) if (phased_p and rng.random() < phased_p) else gen.Policy(rng, p)
+            env, end, actions, et = run_episode(tracer, d, cfg, pol, max_steps=max_steps,
                                                 env_hook=env_hook)
         except jsl.Unsupported as e:
             end, actions, et = "unsupported:" + str(e)[:40], [], []
